@@ -353,9 +353,9 @@ func (e *env) setupGet(s getSpec, en *entry) readSetup {
 		case "fb-nil-status":
 			fb.nilStat = true
 			rs.healthy = true
-		case "fb-nil-digest":
+		case "fb-nil-digest": // OK (explicit, or no status at all) without blob_digest
 			fb.digest = false
-			fb.nilStat = e.r.Chance(50)
+			fb.nilStat = s.arg == 1
 			rs.faulty = true
 		case "non-hex":
 			rs.hash = "zz" + en.hash[2:]
@@ -428,6 +428,8 @@ func (e *env) runGet(s getSpec) {
 	// direct oracles
 	if po.class == "panic" || do.class == "panic" {
 		fails = append(fails, "C12: a backend answer makes the proxy panic (nil BlobDigest in an OK FetchBlob response)")
+	} else if s.fault == "fb-nil-digest" && (po.class != "err" || do.class != "err") {
+		fails = append(fails, fmt.Sprintf("C12: an OK FetchBlob answer without digest must give an error (proxy: %s, disk cache: %s)", po.class, do.class))
 	}
 	if rs.faulty && do.class == "hit" {
 		fails = append(fails, fmt.Sprintf("C12: a faulty backend answer (%s) produced a hit of %d bytes", s.fault, do.size))
@@ -626,6 +628,7 @@ func (e *env) runHas(s hasSpec) {
 				fb.sizeByte = int64(s.arg)
 			case "fb-nil-digest":
 				fb.digest = false
+				fb.nilStat = s.arg == 1
 			case "non-hex":
 				hash = "zz" + hash[2:]
 				hexOK = false
@@ -647,7 +650,11 @@ func (e *env) runHas(s hasSpec) {
 				if fb.digest {
 					d = "(Some " + CZ(fb.sizeByte) + ")"
 				}
-				fbT = fmt.Sprintf("(FBResp %d %s)", fb.status, d)
+				st := fb.status
+				if fb.nilStat {
+					st = 0
+				}
+				fbT = fmt.Sprintf("(FBResp %d %s)", st, d)
 			}
 		}
 		src = defaultG(ac, fbT, fmT, "")
@@ -663,6 +670,8 @@ func (e *env) runHas(s hasSpec) {
 	e.rep.Evaluations += 2
 	if po.panicked || dk.panicked {
 		fails = append(fails, "C12: a backend answer makes the proxy panic (nil BlobDigest in an OK FetchBlob response)")
+	} else if s.fault == "fb-nil-digest" && (po.ok || dk.ok) {
+		fails = append(fails, "C12: an OK FetchBlob answer without digest must make Contains answer no")
 	}
 	if !present && s.fault != "cl-other" && s.fault != "fb-size-abs" && dk.ok {
 		fails = append(fails, "C12: Contains answers yes for a faulty backend answer ("+s.fault+")")
